@@ -236,3 +236,13 @@ package evm
 //@   atcall TryReplace assert [at-the-limit-only-replacement] waitingTxCount >= tp.waitingLimit && calls(Add) == 0
 //@   ensures  [one-admission-path] calls(Add) + calls(TryReplace) <= 1
 //@   loop 0 invariant calls(Add) == 0 && calls(TryReplace) == 0
+
+// the verification queue of a block is built from that block alone: new storage on every call, nothing kept between
+// blocks (a slot carried over from an earlier block would make the result depend on the process history)
+//@ func makeTxQueue
+//@   props C05
+//@   assigns  nothing
+//@   ensures  [queue-is-new-storage-for-this-block] fresh(result) && len(result) == len(txs)
+//@   ensures  [every-slot-row-is-new-storage] forall(j, 0, len(txs), fresh(result[j]))
+//@   loop 0 invariant 0 <= $i && $i <= len(txs) && fresh(q) && len(q) == len(txs)
+//@   loop 0 invariant forall(j, 0, $i, fresh(q[j]))
